@@ -1,13 +1,19 @@
 //! bppv — conformance harness binding the TLA+ specification in /verif/spec to the library in /repo.
 #![allow(dead_code, unused_imports)]
+mod alloc;
 mod fm;
+mod mem;
 mod refgens;
+mod threads;
 mod trace;
 mod util;
 
 use std::io::{BufRead, Write};
 
 use serde_json::{json, Value};
+
+#[global_allocator]
+static GLOBAL: alloc::TracingAlloc = alloc::TracingAlloc;
 
 /// the library over real Ristretto
 pub mod rist {
@@ -216,6 +222,40 @@ fn main() {
         "cases" => match arg(&args, "--group").unwrap_or("rist") {
             "fm" => cases_cmd!(fmx, &args),
             _ => cases_cmd!(rist, &args),
+        },
+        "threads" => {
+            // --reference: every call alone; --histories FILE: forced hand-off; --race N: free-running in this fresh process
+            let mut evs: Vec<Value> = vec![];
+            if args.iter().any(|a| a == "--reference") {
+                for (c, d) in threads::reference().into_iter().enumerate() {
+                    evs.push(json!({"ev": "Ref", "scen": 0, "call": c, "digest": d}));
+                }
+            }
+            if let Some(path) = arg(&args, "--histories") {
+                let lines: Vec<Value> = std::fs::read_to_string(path).unwrap().lines().filter(|l| !l.trim().is_empty()).map(|l| serde_json::from_str(l).unwrap()).collect();
+                threads::run_histories(&lines, &mut evs);
+            }
+            if let Some(n) = arg(&args, "--race") {
+                let run: u64 = arg(&args, "--run").map(|s| s.parse().unwrap()).unwrap_or(0);
+                threads::race(n.parse().unwrap(), run, &mut evs);
+            }
+            let outp = arg(&args, "--out").expect("--out");
+            let mut w = std::io::BufWriter::new(std::fs::File::create(outp).expect("trace file"));
+            for e in &evs {
+                writeln!(w, "{}", e).unwrap();
+            }
+            println!("{}", json!({"events": evs.len()}));
+        },
+        "mem" => {
+            let outp = arg(&args, "--out").expect("--out");
+            let seed: u64 = arg(&args, "--seed").map(|s| s.parse().unwrap()).unwrap_or(1);
+            let (evs, n) = mem::run(seed, args.iter().any(|a| a == "--full"));
+            let mut w = std::io::BufWriter::new(std::fs::File::create(outp).expect("trace file"));
+            let tainted = evs.iter().filter(|e| e["ev"] == "Free" && e["taint"].as_array().map(|a| !a.is_empty()).unwrap_or(false)).count();
+            for e in &evs {
+                writeln!(w, "{}", e).unwrap();
+            }
+            println!("{}", json!({"scenarios": n, "events": evs.len(), "tainted_frees": tainted}));
         },
         "gens" => match arg(&args, "--group").unwrap_or("rist") {
             "fm" => gens_cmd!(fmx, &args, |_s: &Value| Vec::<String>::new()),
